@@ -424,6 +424,13 @@ def run(ctx):
     # ---- self-test: a corrupted accepted trace must be rejected ------------------------------
     corrupt_selftest(ctx, results[0]["trace"])
 
+    # ---- lost wake-ups of the event thread ("... without lost wake-ups, and ... bounded completion time"): the
+    # wake-up family shared with C07 -- a client thread issues a request while the event thread is in each phase of
+    # its loop (about to compute its sleep, sleeping with / without a deadline, dispatching), on a fresh, a busy or an
+    # idle connection, every backend; EvLoop.tla counterexamples replayed, NoOutwait rule of ThreadsTrace.tla
+    import c07_thr
+    c07_thr.run_threaded(ctx)
+
     ctx.cov["traces_validated_against_impl"] += all_runs
     ctx.cov["evaluations"] += all_runs
     ctx.cov["distinct_nontrivial"] += len(hashes)
@@ -436,7 +443,6 @@ def run(ctx):
                            "queue orders delete before add and no memory is shared")
     ctx.assumptions.append("schedule control is at H3/H4 granularity (lock, phase), not every memory access; ThreadSanitizer "
                            "sees only the schedules that occurred; absence of races is proved for the TLA+ model only")
-    ctx.assumptions.append("the NoOutwait trace rule is evaluated but decided by C07_THR, not here")
 
 
 def corrupt_selftest(ctx, trace):
